@@ -139,7 +139,7 @@ parseChunks:
 			}
 
 			offset := uint32(profileName.Len() + 2)
-			if offset >= ch.Length {
+			if offset > ch.Length {
 				return nil, fmt.Errorf("invalid ICC profile chunk length")
 			}
 
